@@ -510,6 +510,7 @@ fn registry_sets(rng: &mut Rng, n: usize) -> Vec<Set> {
                     super_twice: false,
                     call_before_super: rng.chance(1, 6),
                     empty: false,
+                    ..Default::default()
                 });
             }
             if rng.chance(1, 3) {
